@@ -104,6 +104,42 @@ DESC = {
               "a degree that does not divide the domain size"),
     "C19-4": ("Lagrange coefficients scaled through par_chunks_exact_mut: the remainder keeps 1/(tau - w^i)",
               "a pool size that is not a power of two, tau outside the domain, coefficients near the end"),
+    "C01-5": ("compile_with_compressed re-checks the decoded size with '>=' against the inclusive maximum",
+              "compressed route and exactly floor_pow2(capacity) - 6 constraints (the largest circuit the SRS admits)"),
+    "C01-6": ("permutation accumulator computed by a rayon-blocked scan for domains >= 1024: the tail block of n mod workers rows is dropped",
+              "domain >= 1024, a pool size that does not divide it (3, 5, 6, 7, 9, 12, ...) and live gates within n mod workers rows of the power of two"),
+    "C02-5": ("transcript prelude shared between verify and verify_legacy absorbs w_z_chall_comm under both opening labels: u is not bound to [W_zw]",
+              "a purpose-built pair of opening commitments (W_zw chosen after u is known); honest proofs and random tampering are unaffected"),
+    "C02-6": ("range identity folded by Horner's rule with the innermost kappa missing, on prover and verifier alike: two quad checks share one weight",
+              "a circuit with range rows and an independent statement of the identity (or two out-of-range quads with opposite deltas)"),
+    "C03-5": ("per-thread single-slot memo of the seeded V3 transcript keyed by (label, constraints, n) but not by the verifier-key commitments",
+              "two different circuits with the same label and size used back-to-back on one thread"),
+    "C04-5": ("label cache keyed by String::from_utf8_lossy(label)",
+              "two labels that are invalid UTF-8 and differ only inside the invalid sequences, used in one process"),
+    "C05-5": ("grand-product loop runs through the last row and asserts that the accumulator returns to one",
+              "an instance that satisfies every row but breaks a copy constraint (re-wired twin): Prover::prove panics instead of returning CircuitUnsatisfied"),
+    "C06-5": ("all 14 masking scalars drawn through random_nonzero_bls_scalar: a zero draw is discarded and redrawn",
+              "an RNG stream with a draw that reduces to zero (15+ draws, shifted masks; an all-zero stream never terminates)"),
+    "C06-6": ("wire blinding through par_iter().map_with(blinders.iter(), ..) for domains >= 2^12: every split restarts at blinder pair 0",
+              "a circuit of 2049+ rows (domain 4096) and single-draw substitution"),
+    "C07-5": ("add_point_gates returns Composer::IDENTITY (witnesses 0, 1) when the host-side sum has a zero Z",
+              "off-curve coordinates that hit a pole of the addition law, with the sum consumed by a later gate"),
+    "C15-5": ("one-entry cache of the last resolved selector tuple in the decoder is refreshed after .public(0): the public-input flag leaks into the next row",
+              "a public-input row directly followed by a non-public row with the identical selector tuple"),
+    "C15-6": ("new canonical-array-header check uses 16 (number of fixarray lengths) as the largest fixarray length",
+              "exactly 16 entries in one of the description's vectors (rows, public inputs, selector tuples or scalars)"),
+    "C16-5": ("Commitment::from_bytes returns the identity whenever the first byte is 0xc0, without looking at the other 47 bytes",
+              "a proof string with a commitment slot c0 || non-zero bytes"),
+    "C16-6": ("Prover::try_from_bytes section reader yields a section only if it is non-empty",
+              "a prover compiled with the empty label and a round trip"),
+    "C17-5": ("compressed-circuit scalars are decoded lazily, only when a selector row refers to them",
+              "a re-packed description with a spare non-canonical scalar that no selector row points at"),
+    "C18-5": ("64-element floor on the range length of the parallel final FFT stages while the twiddle seeds stay spaced for ceil(m/threads)",
+              ">= 17 threads with an FFT of 2^12 points (>= 33 at 2^13, >= 65 at 2^14)"),
+    "C18-6": ("three-phase parallel prefix scan for the permutation grand product: rows beyond floor(n/workers)*workers keep the value one",
+              "a pool size that does not divide the domain and a circuit that fills its domain to within n mod workers rows"),
+    "C19-5": ("batch_inversion gains a parallel path over par_chunks_exact_mut(256) for >= 1024 entries: the remainder is not inverted",
+              "a slice of >= 1024 entries whose length is no multiple of 256 (through the API: >= 1023 non-zero public inputs)"),
 }
 
 
@@ -135,7 +171,7 @@ def main():
                 else:
                     out.append(f"{c}: harness error")
             return "; ".join(out)
-        rows.append((sid, own, what, needs, fmt(m.get("round1_checks")), fmt(m.get("checks"))))
+        rows.append((sid, own, what, needs, fmt(m.get("round1_checks") or m.get("first_try_checks")), fmt(m.get("checks"))))
     print("| id | change | needs | round 1 | final checks |")
     print("|---|---|---|---|---|")
     for r in rows:
